@@ -47,6 +47,11 @@ func (m *MapCodec) Read(r *ReadBuf, p unsafe.Pointer) error {
 
 			// TODO: can we just reuse one val?
 			val := m.valueCodec.New(r)
+			if val == nil {
+				// The value codec allocates nothing (null values): store the
+				// zero value rather than handing mapassign a nil pointer.
+				val = r.Alloc(m.rtype.Elem())
+			}
 			if err := m.valueCodec.Read(r, val); err != nil {
 				return fmt.Errorf("failed to read value for map key %s. %w", key, err)
 			}
